@@ -1232,3 +1232,102 @@ func E11SweepFlip(c *core.Ctx, r *core.Report) {
 	r.Count("E11.sweep-negations", n)
 	r.Floor("E11.sweep-negations", 1)
 }
+
+// E11ReuseAfterEscape: a slice that has been stored into a longer-lived value is not truncated with
+// its capacity kept and refilled (x = x[:0]; append): the stored copy shares the backing array.
+func E11ReuseAfterEscape(c *core.Ctx, r *core.Report, fileSuffix string) {
+	r.Rule("E11.reuse-after-escape", "in the SVG importer, a slice variable that escapes into a stored value (composite literal field, element appended to another slice, struct field) is never reset by the capacity-keeping `x = x[:0]` and refilled; it is reset with a fresh or zero-capacity slice (`x[:0:0]`), otherwise the value stored earlier (e.g. the selectors of the previous CSS rule) is overwritten by the next one")
+	p := c.MustPkg("")
+	info := p.TypesInfo
+	sites := 0
+	for _, fd := range core.AllFuncDecls(p) {
+		if !strings.HasSuffix(c.Fset.Position(fd.Pos()).Filename, fileSuffix) {
+			continue
+		}
+		// resets
+		type reset struct {
+			o     types.Object
+			pos   token.Pos
+			keeps bool
+		}
+		var resets []reset
+		ast.Inspect(fd.Body, func(n ast.Node) bool {
+			as, ok := n.(*ast.AssignStmt)
+			if !ok || len(as.Lhs) != 1 || len(as.Rhs) != 1 {
+				return true
+			}
+			lid, ok := as.Lhs[0].(*ast.Ident)
+			if !ok {
+				return true
+			}
+			se, ok := core.Unparen(as.Rhs[0]).(*ast.SliceExpr)
+			if !ok || se.Low != nil || se.High == nil {
+				return true
+			}
+			rid, ok := core.Unparen(se.X).(*ast.Ident)
+			if !ok || core.ObjOf(info, rid) != core.ObjOf(info, lid) {
+				return true
+			}
+			if v, ok := core.ConstInt(info, se.High); !ok || v != 0 {
+				return true
+			}
+			keeps := !se.Slice3
+			if se.Slice3 {
+				if v, ok := core.ConstInt(info, se.Max); !ok || v != 0 {
+					keeps = true
+				}
+			}
+			resets = append(resets, reset{core.ObjOf(info, lid), as.Pos(), keeps})
+			return true
+		})
+		for _, rs := range resets {
+			sites++
+			// does the variable escape anywhere in the function?
+			escapes := ""
+			isV := func(e ast.Expr) bool {
+				id, ok := core.Unparen(e).(*ast.Ident)
+				return ok && core.ObjOf(info, id) == rs.o
+			}
+			ast.Inspect(fd.Body, func(n ast.Node) bool {
+				switch x := n.(type) {
+				case *ast.CompositeLit:
+					for _, el := range x.Elts {
+						v := el
+						if kv, ok := el.(*ast.KeyValueExpr); ok {
+							v = kv.Value
+						}
+						if isV(v) {
+							escapes = "stored in a composite literal at " + c.Pos(x.Pos())
+						}
+					}
+				case *ast.CallExpr:
+					if id, ok := x.Fun.(*ast.Ident); ok && id.Name == "append" && len(x.Args) >= 2 && !x.Ellipsis.IsValid() {
+						for _, a := range x.Args[1:] {
+							if isV(a) {
+								escapes = "appended as an element at " + c.Pos(x.Pos())
+							}
+						}
+					}
+				case *ast.AssignStmt:
+					for i, l := range x.Lhs {
+						if _, isSel := core.Unparen(l).(*ast.SelectorExpr); isSel && i < len(x.Rhs) && isV(x.Rhs[i]) {
+							escapes = "stored in a field at " + c.Pos(x.Pos())
+						}
+					}
+				}
+				return true
+			})
+			key := fmt.Sprintf("canvas.%s|reset of a slice buffer #%d", core.FuncName(fd), sites)
+			switch {
+			case escapes == "":
+				r.OK("E11.reuse-after-escape", key, c.Pos(rs.pos), "the buffer never escapes")
+			case !rs.keeps:
+				r.OK("E11.reuse-after-escape", key, c.Pos(rs.pos), "escapes ("+escapes+") but is reset with zero capacity")
+			default:
+				r.Fail("E11.reuse-after-escape", key, c.Pos(rs.pos), fmt.Sprintf("the slice is %s and later reset with `x = x[:0]`, which keeps the backing array: the next append overwrites what was stored", escapes))
+			}
+		}
+	}
+	r.Count("E11.slice-resets", sites)
+	r.Floor("E11.slice-resets", 1)
+}
